@@ -391,7 +391,7 @@ Fixpoint split_strings (fuel : nat) (l : list Z) : list (list Z) :=
   | O => []
   | S f => match l with
            | [] => []
-           | n :: r => firstn (Z.to_nat n) r :: split_strings f (skipn (Z.to_nat n) r)
+           | n :: r => firstn (Z.to_nat (Z.min n 4096)) r :: split_strings f (skipn (Z.to_nat (Z.min n 4096)) r)
            end
   end.
 Definition pad_to (w : nat) (s : list Z) : list Z := s ++ repeat 0%Z (w - length s).
@@ -400,10 +400,12 @@ Definition np_S_view (data : list Z) : Z * list Z :=
   let w := fold_left Nat.max (map (@length Z) ss) 1%nat in
   (Z.of_nat w, flat_map (pad_to w) ss).
 
+(* ranks are clamped so that a malformed payload can never make Z.to_nat build a huge nat *)
+Definition rk (rank : Z) : nat := Z.to_nat (Z.min rank 32).
 (* the hashable key the pass builds from one attribute value *)
 Definition tensor_payload_size (p : list Z) : Z :=
   match p with
-  | _ :: rank :: r => fold_left Z.mul (firstn (Z.to_nat rank) r) 1%Z
+  | _ :: rank :: r => fold_left Z.mul (firstn (rk rank) r) 1%Z
   | _ => 0%Z
   end.
 Definition cse_value_eqb (ty : N) (p q : list Z) : bool :=
@@ -411,8 +413,8 @@ Definition cse_value_eqb (ty : N) (p q : list Z) : bool :=
   else if N.eqb ty TY_TENSOR then
     match p, q with
     | dt :: rank :: r, dt' :: rank' :: r' =>
-      let dims := firstn (Z.to_nat rank) r in let dims' := firstn (Z.to_nat rank') r' in
-      let data := skipn (Z.to_nat rank) r in let data' := skipn (Z.to_nat rank') r' in
+      let dims := firstn (rk rank) r in let dims' := firstn (rk rank') r' in
+      let data := skipn (rk rank) r in let data' := skipn (rk rank') r' in
       Z.eqb dt dt' && list_eqb Z.eqb dims dims' &&
       (if Z.eqb dt DT_STRING
        then let '(w, b) := np_S_view data in let '(w', b') := np_S_view data' in Z.eqb w w' && list_eqb Z.eqb b b'
@@ -423,7 +425,7 @@ Definition cse_value_eqb (ty : N) (p q : list Z) : bool :=
 Definition cse_attr_eqb (a b : str * attr) : bool :=
   str_eqb (fst a) (fst b) &&
   match snd a, snd b with
-  | AData t p, AData t' q => N.eqb t t' && cse_value_eqb t p q
+  | AData t p, AData t' q => if N.eqb t t' then cse_value_eqb t p q else false   (* `if`, not &&: vm_compute is eager *)
   | ARef t r, ARef t' r' => N.eqb t t' && str_eqb r r'
   | _, _ => false
   end.
@@ -532,7 +534,7 @@ Definition is_constant_op (op : opid) : bool := let '(d, n, _) := op in dom_onnx
    (const_tensors: node key -> tensor), modelled not verified. *)
 Definition tensor_of_value_payload (p : list Z) : option tensor :=
   match p with
-  | dt :: rank :: r => Some (mkTensor dt (firstn (Z.to_nat rank) r) (skipn (Z.to_nat rank) r))
+  | dt :: rank :: r => Some (mkTensor dt (firstn (rk rank) r) (skipn (rk rank) r))
   | _ => None
   end.
 Definition lift_tensor (lift_all : bool) (size_limit : Z) (other : list (vid * tensor)) (k : vid) (name : str) (a : attr) : option tensor :=
